@@ -86,7 +86,11 @@ def pair_case(draw):
         for i in range(3):
             if not 0.0 <= p[i] < L:
                 p[i] = 0.0
-    return {"L": L, "direction": d, "positions": pos,
+    warm_up = None
+    if draw(st.booleans()):
+        warm_up = {"positions": [[draw(gen.floats(0.0, math.nextafter(L, 0.0))) for _ in range(3)] for _ in range(2)],
+                   "charges": [draw(st.sampled_from([1.0, -1.0, 0.41])), draw(st.sampled_from([1.0, -1.0, -0.82]))]}
+    return {"L": L, "direction": d, "positions": pos, "warm_up": warm_up,
             "charges": [draw(st.sampled_from([1.0, -1.0, 2.0])), draw(st.sampled_from([1.0, -1.0, 0.5]))],
             "active": draw(st.integers(0, 1)), "speed": draw(st.sampled_from([1.0, 0.5, 2.0])),
             "ts": [float(draw(st.integers(0, 50))), draw(gen.floats(0.0, 0.999))],
@@ -121,6 +125,19 @@ def body_pair(rec, **c):
         potential=MergedImageCoulombPotential(), bounding_potential=InversePowerCoulombBoundingPotential(), charge="q")
     v = [0.0, 0.0, 0.0]
     v[c["direction"]] = c["speed"]
+    # The tag activator keeps a pool of handler instances and hands each of them whatever pair comes next: before the
+    # probed event the same instance treats another pair (other charges, other positions), as it would in a run.
+    warm = c.get("warm_up")
+    if warm:
+        warm_nodes = make_units(3, warm["positions"], warm["charges"], c["active"], v, c["ts"])
+        old_h, old_a = mod_h.random, mod_a.random
+        mod_h.random, mod_a.random = Scripted(expos=[c["expo"]], strict=False), Scripted(uniforms=[0.5], strict=False)
+        try:
+            t_warm = handler.send_event_time(warm_nodes)
+            if not math.isinf(t_warm.quotient):
+                handler.send_out_state()
+        finally:
+            mod_h.random, mod_a.random = old_h, old_a
 
     def attempt(u):
         nodes = make_units(3, c["positions"], c["charges"], c["active"], v, c["ts"])
@@ -178,7 +195,8 @@ def body_pair(rec, **c):
             rec.fail("acceptance/unconfirmed-changes-state", "unconfirmed event changed velocities/time stamps: %r -> %r"
                      % (b, a), dict(c, u=u))
     nt = 0.0 < threshold < 1.0
-    rec.case("pair/%s" % ("interior" if nt else ("zero" if threshold <= 0 else "one")), (repr(sorted(c.items())),), nt,
+    rec.case("pair/%s%s" % ("interior" if nt else ("zero" if threshold <= 0 else "one"), "/reused-handler" if warm else ""),
+             (repr(sorted(c.items())),), nt,
              {"case": c, "threshold": threshold, "q_true": q_true, "q_bound": q_bound})
 
 
